@@ -11,7 +11,6 @@ import (
 	"sort"
 	"strings"
 	"sync"
-	"sync/atomic"
 	"time"
 	"unsafe"
 
@@ -28,12 +27,14 @@ import (
 // (keys 1..5) which it squats (binds itself) and frees, so that Run() fails and succeeds later.
 // The keep-alive loop keepVisitorsRunning is the real goroutine; its period vm.checkInterval (10 s,
 // no setter) is written once through reflect/unsafe right after NewManager, before the goroutine
-// exists.  A pass of the loop is observed through a sentinel visitor the harness keeps configured:
-// its visitor plugin "verif-sentinel" fails in NewVisitor, so every pass tries it once and the
-// creator counts.  Every op ends with at least one complete pass begun after the op's action (two
-// sentinel hits, then a read lock on vm.mu), so the state reported is one in which a further pass
-// changes nothing; which of two waiting visitors got a freed address is the implementation's choice
-// and is checked relationally by the model.
+// exists.  The manager gets exactly the configured list (also the EMPTY list: nothing of the harness' is
+// ever configured).  A pass of the loop is observed through the lock the pass needs: the harness takes
+// vm.mu, waits until the keeper goroutine's next tick is blocked in its Lock() (runtime.Stack), lets go
+// and waits until the goroutine is back in its select - a complete pass begun after the op's action.
+// A keeper goroutine that no longer exists although a list with a visitor has been loaded and Close()
+// has not been called is reported as `;nokeeper` (the op then ends without a pass).  Which of two
+// waiting visitors got a freed address is the implementation's choice and is checked relationally by
+// the model.
 //
 //	reset
 //	vupd <name:variant:port:never>*  => state          (Manager.UpdateAll)
@@ -44,7 +45,7 @@ import (
 //	xfer <name>                      => ok|notfound|closed   (Manager.TransferConn)
 //
 //	state = cfg=<name:variant:port>,…;run=<name.generation>,…;busy=<port keys that cannot be bound>;held=<port keys the
-//	harness holds>[;closed]     (closed: Close() has been called and no UpdateAll since)
+//	harness holds>[;closed][;nokeeper]     (closed: Close() has been called and no UpdateAll since)
 //
 // A reload is what apiReload does (eng_c19_load.go): the entries without a harness plugin are written as a
 // configuration file that spells out only what the token sets (bindAddr 127.0.0.1, xtcp's protocol /
@@ -136,20 +137,14 @@ type vmgrState struct {
 	pristine map[v1.VisitorConfigurer]v1.VisitorConfigurer
 	loader   c19Loader
 	quiet    bool // Close() has been called and no UpdateAll since
+	noKeeper bool // the keeper goroutine has been seen to be gone while it should run
 }
 
 const vmgrMutated = 999999999
 
 var (
 	vmgrSt       *vmgrState
-	vmgrHits     atomic.Int64
 	vmgrRegOnce  sync.Once
-	vmgrSentinel = func() v1.VisitorConfigurer {
-		c := &v1.STCPVisitorConfig{}
-		c.Name, c.Type, c.ServerName, c.SecretKey, c.BindAddr, c.BindPort = "zz-sentinel", "stcp", "s", "k", "127.0.0.1", -1
-		c.Plugin = v1.TypedVisitorPluginOptions{Type: "verif-sentinel"}
-		return c
-	}
 )
 
 type vmgrNoopPlugin struct{}
@@ -160,10 +155,6 @@ func (vmgrNoopPlugin) Close() error { return nil }
 
 func vmgrRegister() {
 	vmgrRegOnce.Do(func() {
-		vplugin.Register("verif-sentinel", func(vplugin.PluginContext, v1.VisitorPluginOptions) (vplugin.Plugin, error) {
-			vmgrHits.Add(1)
-			return nil, fmt.Errorf("sentinel")
-		})
 		vplugin.Register("verif-noop", func(vplugin.PluginContext, v1.VisitorPluginOptions) (vplugin.Plugin, error) {
 			return vmgrNoopPlugin{}, nil
 		})
@@ -352,31 +343,96 @@ func (s *vmgrState) loadList(toks []string) ([]v1.VisitorConfigurer, string) {
 	return out, ""
 }
 
-// waitPass returns after a complete pass of the keep-alive loop that began after the call
-func (s *vmgrState) waitPass() bool {
-	if s.closed || !s.started {
-		return true
+// vmgrKeeper: the state of the keeper goroutine(s) of this process: absent | select | blocked | other
+func vmgrKeeper() string {
+	buf := make([]byte, 1<<20)
+	n := runtime.Stack(buf, true)
+	for n == len(buf) {
+		buf = make([]byte, 2*len(buf))
+		n = runtime.Stack(buf, true)
 	}
-	c0 := vmgrHits.Load()
-	deadline := time.Now().Add(3 * time.Second)
-	for vmgrHits.Load() < c0+2 {
-		if time.Now().After(deadline) {
+	out := "absent"
+	for _, g := range strings.Split(string(buf[:n]), "\n\n") {
+		if !strings.Contains(g, "keepVisitorsRunning") && !strings.Contains(g, "visitor.(*Manager).UpdateAll.func1") {
+			continue
+		}
+		if strings.Contains(g, "main.vmgrExec") {
+			continue // the harness' own goroutine inside UpdateAll
+		}
+		i, j := strings.Index(g, "["), strings.Index(g, "]")
+		if i < 0 || j < i {
+			continue
+		}
+		st := g[i+1 : j]
+		switch {
+		case strings.HasPrefix(st, "select"):
+			out = "select"
+		case strings.Contains(st, "Lock") || strings.Contains(st, "semacquire"):
+			return "blocked"
+		default:
+			if out == "absent" {
+				out = "other"
+			}
+		}
+	}
+	return out
+}
+
+// keeperGone: no keeper goroutine, and none appearing during 10 ms and at least 25 looks (a goroutine that was
+// just created shows up as soon as it is scheduled)
+func vmgrKeeperGone() bool {
+	deadline := time.Now().Add(10 * time.Millisecond)
+	for polls := 0; polls < 25 || time.Now().Before(deadline); polls++ {
+		if vmgrKeeper() != "absent" {
 			return false
 		}
-		time.Sleep(100 * time.Microsecond)
+		time.Sleep(200 * time.Microsecond) // (also lets a goroutine that was just created run)
 	}
-	s.mu.RLock() // the pass that produced the second hit holds the write lock until it is complete
-	s.mu.RUnlock()
 	return true
 }
 
-func (s *vmgrState) state(passed bool) string {
+// waitPass returns after a complete pass of the keep-alive loop that began after the call; keeper = false
+// when there is no keeper goroutine (and hence no pass) although there should be one
+func (s *vmgrState) waitPass() (passed, keeper bool) {
+	if s.closed || !s.started {
+		return true, true
+	}
+	if s.noKeeper || (vmgrKeeper() == "absent" && vmgrKeeperGone()) {
+		s.noKeeper = true // (it is started through a sync.Once: it will not come back)
+		return true, false
+	}
+	s.mu.Lock()
+	st := ""
+	ok := vmgrWaitFor(func() bool { st = vmgrKeeper(); return st == "blocked" || st == "absent" }, 2*time.Second)
+	s.mu.Unlock()
+	if st == "absent" {
+		// it has ended while the harness held the lock: it was not inside a pass
+		if vmgrKeeperGone() {
+			s.noKeeper = true
+			return true, false
+		}
+		return false, true
+	}
+	if !ok {
+		return false, true
+	}
+	ok = vmgrWaitFor(func() bool { st = vmgrKeeper(); return st == "select" || st == "absent" }, 2*time.Second)
+	if st == "absent" && vmgrKeeperGone() {
+		s.noKeeper = true
+		return true, false
+	}
+	return ok, true
+}
+
+func (s *vmgrState) stateAfterPass() string {
+	p, k := s.waitPass()
+	return s.state(p, k)
+}
+
+func (s *vmgrState) state(passed, keeper bool) string {
 	names, _ := s.vm.VerifDump()
 	var cs []string
 	for _, n := range names {
-		if n == "zz-sentinel" {
-			continue
-		}
 		c, _ := s.vm.VerifCfg(n)
 		vc := c.(v1.VisitorConfigurer)
 		t, ok := s.tokens[vc]
@@ -427,6 +483,9 @@ func (s *vmgrState) state(passed bool) string {
 		";held=" + strings.Join(held, ",")
 	if s.quiet {
 		out += ";closed"
+	}
+	if !keeper {
+		out += ";nokeeper"
 	}
 	if !passed {
 		out += "!NOPASS"
@@ -480,16 +539,14 @@ func (s *vmgrState) closeRace(k int) string {
 		// right after an iteration: the next one is a whole checkInterval away, Close() gets to the lock first
 		// (nothing that stops the world - runtime.Stack - between here and `go Close()`); should the machine be so
 		// busy that the iteration gets there first all the same, the model accepts that order too (Engines/Vmgr.lean)
-		c0 := vmgrHits.Load()
-		for i := 0; vmgrHits.Load() == c0 && i < 20000; i++ {
-			time.Sleep(100 * time.Microsecond)
-		}
+		s.waitPass()
 	}
+	alive := s.started && !s.closed && !s.noKeeper
 	s.mu.Lock()
 	done := make(chan struct{})
 	go func() { s.vm.Close(); close(done) }()
 	queued := vmgrWaitFor(func() bool { return vmgrBlocked("visitor.(*Manager).Close") }, 2*time.Second)
-	if queued && s.started && !s.closed {
+	if queued && alive {
 		queued = vmgrWaitFor(func() bool { return vmgrBlocked("visitor.(*Manager).keepVisitorsRunning") }, 2*time.Second)
 	}
 	if k != 0 && s.squat[k] != nil {
@@ -504,7 +561,7 @@ func (s *vmgrState) closeRace(k int) string {
 	}
 	s.closed, s.quiet = true, true
 	vmgrWaitLoopGone()
-	return r + ";" + s.state(queued)
+	return r + ";" + s.state(queued, true)
 }
 
 func vmgrExec(tok []string) string {
@@ -521,13 +578,12 @@ func vmgrExec(tok []string) string {
 		if bad != "" {
 			return bad
 		}
-		cfgs = append(cfgs, vmgrSentinel())
 		s.vm.UpdateAll(cfgs)
 		s.quiet = false
-		if !s.closed {
-			s.started = true
+		if !s.closed && len(cfgs) > 0 {
+			s.started = true // keepVisitorsRunningOnce has fired
 		}
-		return s.state(s.waitPass())
+		return s.stateAfterPass()
 	case "squat", "free":
 		k := atoi(tok[1])
 		if k < 1 || k > 5 {
@@ -550,14 +606,14 @@ func vmgrExec(tok []string) string {
 				s.squat[k] = nil
 			}
 		}
-		return r + ";" + s.state(s.waitPass())
+		return r + ";" + s.stateAfterPass()
 	case "tick":
-		return s.state(s.waitPass())
+		return s.stateAfterPass()
 	case "close":
 		s.vm.Close()
 		s.closed, s.quiet = true, true
 		vmgrWaitLoopGone()
-		return s.state(true)
+		return s.state(true, true)
 	case "closerace":
 		k := atoi(tok[1])
 		if k < 0 || k > 5 {
@@ -787,6 +843,45 @@ func vmgrGen(rng *rand.Rand, n int, emit func(string)) {
 		case r < 95:
 			emit("reset")
 			cur, squat = nil, map[int]bool{}
+		case r < 98:
+			// NOTHING CONFIGURED for a while (the keeper's ticks find an empty table), then entries come back -
+			// mostly on an address that is taken at that moment, so that only a later tick can start them
+			emitUpd(nil)
+			for k := 1 + rng.Intn(3); k > 0; k-- {
+				emit("tick")
+				i++
+			}
+			var next []vmgrEnt
+			var taken []int
+			for k := 1 + rng.Intn(2); k > 0; k-- {
+				e := fresh(rng.Intn(4))
+				if rng.Intn(4) != 0 && e.never() == 0 {
+					d := vmgrDecode(e.variant)
+					if d[vfType] == 2 {
+						e.port = 4 + rng.Intn(2)
+					} else {
+						e.port = 1 + rng.Intn(3)
+					}
+					if !squat[e.port] {
+						squat[e.port] = true
+						emit(fmt.Sprintf("squat %d", e.port))
+						i++
+					}
+					taken = append(taken, e.port)
+				}
+				next = append(next, e)
+			}
+			emitUpd(next)
+			for _, p := range taken {
+				if squat[p] && rng.Intn(4) != 0 {
+					delete(squat, p)
+					emit(fmt.Sprintf("free %d", p))
+					i++
+				}
+			}
+			if rng.Intn(2) == 0 {
+				emit("tick")
+			}
 		default:
 			emitUpd(append([]vmgrEnt(nil), cur...))
 		}
